@@ -72,7 +72,7 @@ func (cr *c05Run) c05TextCase(qy *c05Query, qa, qe string, st [][2]string, path 
 	rp := c05tReplay{Kind: "text (aliased text, expanded text, expand_stmt through the text twin)", Tag: qy.tag, Query: qa, Expanded: qe,
 		Store: st, Path: path, B: B, K: k,
 		ARow: c05Short(c05Outcome(aRow)), ABat: c05Short(c05Outcome(aBat)), ERow: c05Short(c05Outcome(eRow)), EBat: c05Short(c05Outcome(eBat)),
-		What: "code 1: the text twin (Model/PipelineS.v) and the implementation differ on one of the two texts; code 2: the implementation returns other rows for the text with the names than for the text with the definitions written out; code 3: Model/AliasText.expand_stmt of the parsed statement, run through the twin, differs from the text with the names"}
+		What: "code 1: the text twin (Model/PipelineS.v) and the implementation differ on one of the two texts; code 6: the implementation returns other rows for the text with the names than for the text with the definitions written out; code 7: Model/AliasText.expand_stmt of the parsed statement, run through the twin, differs from the text with the names"}
 	nontrivial := len(aRow.Rows) > 0 && strings.Contains(qy.where+qy.suffix+strings.Join(qy.extra, " "), "{")
 	e.add(term, rp, nontrivial)
 	e.count("c5t:twin")
